@@ -18,12 +18,12 @@
 EXTENDS RolloutsProps, Json, TLC, IOUtils
 
 States == ndJsonDeserialize(IOEnv.VERIF_STATES)
-Trans  == ndJsonDeserialize(IOEnv.VERIF_TRANS)
 St(i) == States[i].s
-
-EdgeIdx == {i \in 1..Len(Trans) : Trans[i].fault = ""}
-Out == [n \in 1..Len(States) |-> {<<Trans[i].base, Trans[i].post>> : i \in {j \in EdgeIdx : Trans[j].pre = n}}]
-AllActs == {Trans[i].base : i \in EdgeIdx}
+\* adjacency of the recorded graph, one line per state {id, out: [{a: action, p: post state}]} (non-fault transitions),
+\* grouped by lib/closedloop.py from the .trans file (a regrouping, nothing is inferred)
+Adj == ndJsonDeserialize(IOEnv.VERIF_ADJ)
+Out == [n \in 1..Len(Adj) |-> {<<Adj[n].out[k].a, Adj[n].out[k].p>> : k \in DOMAIN Adj[n].out}]
+AllActs == UNION {{e[1] : e \in Out[n]} : n \in 1..Len(Adj)}
 \* fair: everything the property assumes to happen (controllers, responsive workload controller, time,
 \* the release itself, approvals); other user actions (pause, delete, ...) are never forced
 FairActs == AllActs \cap {"ro", "br", "tick", "env.observe", "env.update", "env.ready", "env.scale", "env.gc", "user.release2", "user.approve", "user.resume"}
